@@ -397,12 +397,16 @@ def run_eval(pid, tier, seed):
 
 def run(pid, tier, seed):
     cfg = PROPS[pid]
+    if cfg["engine"] == "plugin":
+        return cfg["module"].run(pid, tier, seed)
     return ENGINES[cfg["engine"]](pid, tier, seed)
 
 
 def replay(pid, path):
     rec = json.load(open(path))
     cfg = PROPS[pid]
+    if cfg["engine"] == "plugin":
+        return cfg["module"].replay(pid, path)
     tr = pl.replay_ops_trace((rec["init"], rec["ops"], rec.get("opts", {})))
     verdicts, _ = pl.judge([tr], procs=1)
     v = verdicts[0]
@@ -415,3 +419,19 @@ def replay(pid, path):
 
 
 ENGINES = {"eval": run_eval, "inh": run_eval}
+
+
+# ---------------------------------------------------------------------------
+# plug-in engines: harness/eng_*.py, each with PIDS, run(pid, tier, seed), replay(pid, path)
+def _load_plugins():
+    import importlib
+    import pkgutil
+    import harness
+    for m in pkgutil.iter_modules(harness.__path__):
+        if m.name.startswith("eng_"):
+            mod = importlib.import_module("harness." + m.name)
+            for pid in getattr(mod, "PIDS", []):
+                PROPS[pid] = {"engine": "plugin", "module": mod, "level": getattr(mod, "LEVEL", {}).get(pid, "model_checking")}
+
+
+_load_plugins()
